@@ -33,7 +33,7 @@ EXTRA_MODULES = {
     "C01": ["Tie.Plan", "Tie.SeekArith", "Tie.ReadLoops"],
     "C02": ["Tie.SeekArith", "Tie.ReadLoops"],
     "C03": ["Tie.Bits", "Tie.BitsValidation"],
-    "C04": ["Tie.Bits", "Tie.SigprocTables", "Tie.SigprocCodec"],
+    "C04": ["Tie.Bits", "Tie.SigprocTables", "Tie.SigprocCodec", "Tie.WriterArith"],
     "C05": ["Tie.SigprocTables", "Tie.SigprocCodec"],
     "C06": ["Tie.Plan", "Tie.Collapse", "Tie.Dedisperse", "Kernels.ExtractTim", "Kernels.ExtractBpass", "Kernels.Dedisperse"],
     "C07": ["Tie.Plan", "Tie.Subband", "Kernels.InvertFreq", "Kernels.MaskChannels", "Kernels.Subband",
@@ -49,8 +49,8 @@ EXTRA_MODULES = {
     "C16": ["Kernels.MaskChannels", "Tie.StateMachines"],
     "C17": ["Tie.StateMachines"],
     "C18": ["Tie.Plan", "Tie.Pfits"],
-    "C19": ["Tie.Prange"],
-    "C20": ["Tie.WriterOps", "Tie.Bits", "Tie.SigprocTables", "Tie.SigprocCodec"],
+    "C19": ["Tie.Prange", "C19Steps"],
+    "C20": ["Tie.WriterOps", "Tie.Bits", "Tie.SigprocTables", "Tie.SigprocCodec", "Tie.WriterArith"],
 }
 
 
